@@ -21,8 +21,11 @@ prop("C01", "other", "static sibling-agreement analysis: wire-shape regular lang
      "and Packed-guard assignment, every byte-sequence shape the writer can emit is one the reader consumes (tags refine to the matching "
      "arm); raw-copy paths are only equal to the field-wise paths where the Packed decision is sound (P2). Value equality is not decided.",
      "Rules W1 (≈92 library impl pairs), W4 (container header), W5 (derived impls of ≈300 corpus definitions vs the documented model), "
-     "W6 (field flow), P2 (Packed decision vs rustc layout). Each obligation is one impl pair / corpus definition checked over all "
-     "version classes and guard assignments by NFA containment with minterm-refined tag alphabets.",
+     "W6 (field flow), P2/P3 (Packed decision vs rustc layout; raw events guarded), W2 (hand-written tag tables are inverse maps), "
+     "W11 (primitive values travel unmodified), W13 (k-th written component flows back into the component it came from), W14 (sequences "
+     "are written and rebuilt in container order), T4 (a capacity-checked length is rejected only above the capacity), CB (the witness "
+     "corpus still compiles). Each obligation is one impl pair / corpus definition checked over all version classes and guard "
+     "assignments by NFA containment with minterm-refined tag alphabets.",
      ["nested values are compared compositionally (a nested type is a symbol checked at its own impl)",
       "equality of values (float bits, hash-set equality, Arc<str> sharing), bzip2/ring internals and CryptoWriter chunk arithmetic are not decided"],
      "necessary condition of round-trip fidelity; not a proof of value equality", "DESIGN.md §3 C01")
@@ -31,7 +34,8 @@ prop("C02", "other", "static conformance check: writer wire languages vs a froze
      "Decides that the event language of every library writer, of the container header and of every derived writer equals a frozen, "
      "hand-reviewed specification of the documented format (widths, little endian, u64 lengths, tag values, field order, discriminant = "
      "variant index in the documented width). A change applied consistently to writer and reader is reported although round trips still pass.",
-     "Rules W3 (spec/wire_spec.json: 96 writers incl. header, language equality modulo expansion of nested values), W4, W5 (corpus model).",
+     "Rules W3 (spec/wire_spec.json: 96 writers incl. header, language equality modulo expansion of nested values), W4, W5 (corpus model), "
+     "W2, W11, W13, W14 (tag tables, unmodified primitives, component order, sequence order).",
      ["iteration order of hash containers and byteorder's numeric encoding are trusted",
       "a byte sink idiom the classifier does not know yields 'undecided', never an alarm"],
      "conformance of the writer's shape; the byte values of primitives are byteorder's", "DESIGN.md §3 C02, Appendix A")
@@ -57,7 +61,10 @@ prop("C05", "other", "static comparison-table extraction (which access paths are
      "Decides that the gate is complete: diff_schema compares every wire-relevant fact of each schema variant with a difference-reporting "
      "result, recurses into every nested schema, reports mismatched variants, and never lets names or memory-layout annotations influence "
      "the result; the header/schema section is read in the order it is written.",
-     "Rules Q1 (35 table obligations from the property statement), W4 (header sequence).",
+     "Rules Q1 (37 table obligations from the property statement, including: no accepting shortcut on a one-sided condition, and no "
+     "accepting shortcut that skips a comparison its condition does not cover), W4 (header sequence), F1 (in load_impl every path to the "
+     "payload passes the whole-value comparison with the 9-byte magic that save_impl writes, the library-version bound, the data-version "
+     "bound, and - when a schema is expected - diff_schema with a propagated difference).",
      ["that every pair of differently encoded types has different schemas additionally needs C12 for each type"],
      "completeness of the comparison and presence of the header sequence", "DESIGN.md §3 C05, Appendix B")
 
@@ -66,7 +73,9 @@ prop("C06", "other", "static interval/taint analysis of values read from the str
      "overflow given the dominating reject-guards (T1); an untrusted length reaching set_len/from_raw_parts/pointer arithmetic is the "
      "allocated size or bounded against it (T2); every panicking construct is triaged as data-independent (T3); no error result is "
      "unwrapped (I3); types with restricted bit patterns are never bulk-copyable (P5, three known findings).",
-     "Rules T1 (interval analysis per reader function), T2, T3 (spec/panic_sites.json), I3, P5.",
+     "Rules T1 (interval analysis per reader function), T2, T3 (spec/panic_sites.json), T4 (capacity guards inclusive), T5 (BitVec: accepted "
+     "bit count ≤ allocated storage bits, finite-domain evaluation), T6 (initialisation typestate of element-wise filled "
+     "[MaybeUninit<T>; N] buffers, including error clean-up inside the fill loop), I3, P5.",
      ["trusted lengths/offsets are ≤ isize::MAX and element sizes < 2^31", "panics inside third-party crates, stack exhaustion and OOM are not decided"],
      "absence of the enumerated defect classes on all paths, not absence of all panics", "DESIGN.md §3 C06, Appendix C")
 
@@ -74,15 +83,17 @@ prop("C07", "other", "static exact-read discipline (who-may-call) + result disci
      "With every read of the input being an exact read (I1), every read error propagated (I3) and the load consuming exactly the shapes "
      "the save produced (W1/W4), any cut inside the consumed bytes yields Err for the plain and schema-less containers; the compressed "
      "stream is finished explicitly (I4).",
-     "Rules I1 (all Read/ReadBytesExt call sites), I3 on reader-side functions, I4, W1, W4.",
-     ["truncation inside a bzip2 stream and CryptoReader's hand-written chunk loop need execution and are not decided"],
+     "Rules I1 (all Read/ReadBytesExt call sites), I3 on reader-side functions, I4, W1, W4, K4 (CryptoReader: every copy-out of the "
+     "decrypt buffer advances the offset by the count it returns), K7 (the decompressor is driven to its end-of-stream after the value, "
+     "so the compressed trailer - and the last encrypted chunk - is required).",
+     ["bzip2's own detection of a cut inside its stream is trusted (the library demands the stream's end, K7)"],
      "sound static argument for the plain containers only", "DESIGN.md §3 C07")
 
 prop("C08", "other", "static error/exact-write discipline and typestate rules over THIR path languages",
      "All output goes through write_all/byteorder (I2); every io::Error/SavefileError/ring result is propagated or handled by an "
      "error-producing arm (I3); a BzEncoder is finish()ed and the sink flushed on every Ok path (I4, I5); a destructor does not retry and "
      "panic after a failed flush (I6).",
-     "Rules I2, I3 (≈480 call sites), I4, I5, I6.",
+     "Rules I1, I2, I3 (≈480 call sites), I4, I5, I6, K4.",
      ["hangs and chunking independence of CryptoReader's manual loop under Interrupted are not decided",
       "known finding: Drop of a never-flushed CryptoWriter panics when its implicit flush fails (documented behaviour)"],
      "error discipline on all paths", "DESIGN.md §3 C08")
@@ -90,36 +101,49 @@ prop("C08", "other", "static error/exact-write discipline and typestate rules ov
 prop("C11", "other", "static comparison-table extraction for Schema::layout_compatible",
      "layout_compatible answers yes only if size, alignment, every field offset, discriminant width and values, collection layouts are "
      "known on both sides and equal, recursively; Option/Custom/closures and mismatched variants answer no.",
-     "Rule Q3 (38 table obligations).",
+     "Rules Q3 (40 table obligations incl. the two shortcut clauses), P6 (derived schemas claim an explicit repr only when the recorded "
+     "discriminants are the in-memory values), M1/M2/M4/M5 (the four schemas handed to arg_layout_compatible originate from the two "
+     "sides' effective and native definitions of the same method and argument; the mask is per method), X3 (layout facts enter a schema "
+     "only through the unsafe constructor).",
      ["behaviour under a different compiler is covered only in so far as the schema is the sole channel"],
      "conservativeness of the decision function", "DESIGN.md §3 C11")
 
 prop("C12", "other", "schema constructor trees read off THIR, translated to the language a schema-driven reader parses, containment writer ⊆ schema",
      "For every library type with a literal schema constructor tree the language its writer emits is contained in the language described "
      "by its schema; recursion guards name the type whose schema they wrap.",
-     "Rules W7 (≈90 types), W10 (20 recursion guards). Known findings: SocketAddr, Result, HashMap/IndexMap guards.",
+     "Rules W7 (≈90 library types), W7d (derived schemas of the corpus vs the derived writers, field-wise and raw path, per version), W10 "
+     "(20 recursion guards). Known findings: SocketAddr, Result, HashMap/IndexMap guards, BitVec/BitSet, retyped field written at an older "
+     "version, enum discriminant recorded as u8.",
      ["run-time dependent parts of a schema (Vec/String layout probes) are not decided; BitVec/BitSet are undecided (raw storage slice)"],
      "faithfulness of the schema's shape", "DESIGN.md §3 C12")
 
 prop("C13", "other", "writer⊆reader containment for the schema node types + reflexivity/completeness tables for diff_schema",
      "Schema, SchemaStruct, SchemaEnum, Variant, Field, SchemaArray, SchemaPrimitive and the ABI definition types written at format "
-     "versions ≥1 are read back by their readers (W1 over version classes 1..3); diff_schema reports differences only from comparisons of "
-     "corresponding paths (Q2) and compares every wire-relevant fact (Q1).",
-     "Rules W1 (schema types), Q1, Q2. Known finding: Undefined vs Undefined reports a difference by design.",
-     ["the byte-exact format 0 of old releases has no reference in the repository"],
+     "versions ≥1 are read back by their readers (W1 over version classes 1..3); specialised to file_version 0 each reader consumes the "
+     "frozen format-0 layout = format 1 without the memory-layout annotations (W8); hand-written tag tables are inverse maps (W2); "
+     "diff_schema reports differences only from comparisons of corresponding paths (Q2), compares every wire-relevant fact and takes no "
+     "accepting shortcut past a comparison (Q1).",
+     "Rules W1 (schema types), W8 (spec/format0_spec.json, 12 readers), W2, Q1, Q2. Known finding: Undefined vs Undefined reports a difference by design.",
+     ["format 0 has no independent reference in the repository: spec/format0_spec.json was frozen from the pinned tree and reviewed by "
+      "hand against the version gates (offset, size, alignment, discriminant_size, has_explicit_repr, string/vector layout byte)"],
      "shape agreement and comparison tables", "DESIGN.md §3 C13")
 
-prop("C14", "other", "static necessary conditions in savefile's AEAD wrapper (result discipline, bounded chunk length)",
-     "Only the structural necessary conditions: the result of open_in_place/seal is inspected and its Err becomes an Err; the header read "
-     "cannot panic; the chunk length read from the file is bounded before it sizes a buffer (T1). The cryptographic guarantee itself is ring's.",
-     "Rules I3 (crypto module), T1/T3 on CryptoReader.",
+prop("C14", "other", "static necessary conditions in savefile's AEAD wrapper (result discipline, key provenance, nonce injectivity by constant folding, framing)",
+     "Only the structural necessary conditions: the result of open_in_place/seal is inspected and its Err becomes an Err (I3); both ends "
+     "derive the key as the same digest of exactly the password parameter, helpers inlined (K3); every byte of the stored nonce state "
+     "occupies its own slot of the 12-byte nonce (K5, constant folding of the array construction); the nonce header written is the one "
+     "read (W4); every copy-out of the decrypt buffer advances the offset by what it returns (K4); the load demands the end of the "
+     "compressed stream so that no trailing chunk is optional (K7). The cryptographic guarantee itself is ring's.",
+     "Rules I3 (crypto module), K3, K4, K5, K7, W4.",
      ["that modification of nonce/length/ciphertext/tag is detected is ring's AES-256-GCM and is not decided here"],
      "necessary conditions only", "DESIGN.md §3 C14")
 
 prop("C15", "other", "static comparison-table extraction for the ledger comparison + position-flag consistency",
      "verify_backward_compatible: a recorded method missing now, a changed argument count, argument schema, return schema or async flag "
      "each lead to Err; return values are compared in return position.",
-     "Rules Q4, Q6.",
+     "Rules Q4 (comparison table of verify_backward_compatible), Q5 (the definition is stored at a data version at which every compared "
+     "field is written), Q6, Q7 (in verify_compatiblity the file name, the recorded definition, the checked definition and the version "
+     "argument are all those of the loop's version, and the loop covers 0..=latest).",
      ["file-system behaviour is not decided"],
      "completeness of the ledger comparison", "DESIGN.md §3 C15")
 
@@ -127,16 +151,20 @@ prop("C16", "other", "static lock-order / held-lock effect analysis over the res
      "Deadlock-freedom necessary conditions: all shared mutable state is a Mutex or atomic (L3); the lock-order graph over the three "
      "process-wide caches is acyclic without self edges (L1); while a cache guard is live only negotiation messages leave the image, "
      "their callbacks and in-image handlers acquire no cache lock, and no RegularCall is issued under a lock (L2).",
-     "Rules L1, L2, L3.",
+     "Rules L1, L2, L3, L4 (condition variables, if any: state changed under the waited-on mutex is followed by a notify - no lost "
+     "wake-up), X2 (AbiConnection<T> is Send/Sync only if T is).",
      ["'same results as sequential execution' (linearizability) is not decided", "user constructors run under CreateInstance execute in the plugin image with its own statics"],
      "necessary conditions for deadlock freedom", "DESIGN.md §3 C16")
 
-prop("C17", "other", "static classification of introspect_child / introspect_len shapes",
-     "First sentence only: for every Introspect impl (≈90 library, ≈300 derived) the children served by introspect_child and the count "
-     "reported by introspect_len belong to the same class (len, 2·len, literal k with indices 0..k-1, delegation), per enum variant.",
-     "Rule S1.",
-     ["navigation never panics / total_index relations rest on run-time index arithmetic and are not decided"],
-     "child-count consistency only", "DESIGN.md §3 C17")
+prop("C17", "other", "static classification of introspect_child / introspect_len shapes + path-wise affine relations over total_index_impl",
+     "For every Introspect impl (≈90 library, ≈300 derived) the children served by introspect_child and the count reported by "
+     "introspect_len belong to the same class (len, 2·len, literal k with indices 0..k-1, delegation), per enum variant, and are taken "
+     "from the same container (S1). total_index: on every acyclic path of total_index_impl a frame that yields no element advances the "
+     "flat cursor by exactly len(frame.keyvals) - the amount do_introspect adds to total_len - and a returned element is "
+     "keyvals[index - cursor on entry - advance of the expanded sub-tree] (S3).",
+     "Rules S1 (404 impls), S3 (6 path obligations).",
+     ["that navigation never panics for arbitrary command sequences (Introspector::dive) is not decided"],
+     "child-count consistency and flat-index accounting", "DESIGN.md §3 C17")
 
 prop("C18", "translation_validation", "translation validation of derived writers specialised to older versions against the timeline model",
      "For every add/remove evolution history and k < j: the writer derived from definition j, told to write version k, emits exactly the "
@@ -151,9 +179,10 @@ prop("C09", "translation_validation", "translation validation of generated ABI t
      "assignment: the argument message the caller trampoline writes is what the callee trampoline reads before it invokes the "
      "implementation method with that number, and the reply it writes is what the caller's result receiver reads (W9); implementation "
      "code runs only inside catch_unwind (A1) and both panic payload kinds are forwarded (A2).",
-     "Rules W9 (≈40 methods × mask assignments), A1, A2.",
-     ["equality of observed values, drop counts at run time and post-panic usability are not decided",
-      "ownership pairing (Box::into_raw vs Owning::Owned) is not yet modelled"],
+     "Rules W9 (≈40 methods × mask assignments, with ownership events), A1, A2, A3 (ownership pairing of boxed arguments), A6 "
+     "((pointer, length) pairs passed across the boundary: the length is len() of the same object), N5, M5 (compatibility mask is "
+     "initialised per method).",
+     ["equality of observed values, drop counts at run time and post-panic usability are not decided"],
      "mirror-image property of generated code on the corpus; the runtime effect is not observed", "DESIGN.md §3 C09")
 
 prop("C10", "translation_validation", "value-origin analysis of the version labels on all four legs of the generated trampolines + negotiation and ledger tables",
@@ -162,6 +191,7 @@ prop("C10", "translation_validation", "value-origin analysis of the version labe
      "it was called with; the caller decodes the reply with the reply header's version (N3). Negotiation takes min(own, callee) (N1); a "
      "method missing in the implementation panics at call time, after a successful match of its number (N4); signature changes are "
      "rejected by the definition comparison (Q4); trampolines agree at every mask assignment (W9).",
-     "Rules N3 (every corpus trait and method), N1, N4, W9, Q4.",
+     "Rules N3 (every corpus trait and method), N1, N4, N5, W9, Q4, M1/M2/M4 (which definitions are compared during negotiation), and "
+     "H2/W5/P2 on the evolution histories (an argument type written at the effective version has that version's layout).",
      ["values are not decided; interface families are the enumerated ones"],
      "origin of version values in generated code", "DESIGN.md §3 C10")
